@@ -27,7 +27,7 @@ type c16Call struct {
 	Fn      string // entry point
 	Elem    string
 	Root    string
-	NoBase  bool // nil options / no base path
+	NoBase  bool   // nil options / no base path
 	Raw     string // schema literal to expand (meta-schema calls)
 }
 
@@ -41,6 +41,9 @@ func c16Universe(variant int) *built {
 		g.Edges = []gedge{{0, 1, formProperties, spShort}} // acyclic
 	case 3:
 		g.Edges = []gedge{{0, 0, formItems, spShort}, {0, 1, formAllOf, spShort}, {1, 1, formProperties, spShort}}
+	case 4: // everything inside the root document
+		g.Place = []int{0, 0}
+		g.Edges = []gedge{{0, 1, formProperties, spShort}, {1, 0, formItems, spShort}, {1, 1, formAllOf, spShort}}
 	}
 	b := g.build()
 	for u, d := range b.Docs {
@@ -122,7 +125,7 @@ func dumpDeep(b *strings.Builder, v reflect.Value, depth int, seen map[uintptr]b
 	case reflect.Struct:
 		pkg := v.Type().PkgPath()
 		b.WriteString(v.Type().String() + "{")
-		if pkg != "" && !strings.HasPrefix(pkg, "github.com/go-openapi/") && pkg != "net/url" {
+		if pkg != "" && (!strings.HasPrefix(pkg, "github.com/go-openapi/") && pkg != "net/url" || strings.HasSuffix(pkg, "/verifrt")) {
 			b.WriteString("...}")
 			return
 		}
@@ -379,7 +382,7 @@ func init() {
 	extraCommands["hist"] = histMain
 	register(&CheckDef{
 		ID: "C16", Build: "instr", Run: c16Run, RunCase: c16RunCase,
-		Rule: "states = every history of exactly k calls (all shorter ones are its prefixes) over an alphabet of 14 calls that collide on purpose: three universes with the same pseudo root and the same document URLs but different content, every family of entry point with and without root / base, and expansions / resolutions of both built-in meta-schemas; each history runs in a FRESH process; oracle (differential): every call's result, error, loader requests equal those of the same call made first in a fresh process, options and root unchanged, and the address-free deep fingerprint of every package-level variable (the default cache with both meta-schemas included) after every call equals the one after a single call; non-trivial = every history",
+		Rule:        "states = every history of exactly k calls (all shorter ones are its prefixes) over an alphabet of 14 calls that collide on purpose: three universes with the same pseudo root and the same document URLs but different content, every family of entry point with and without root / base, and expansions / resolutions of both built-in meta-schemas; each history runs in a FRESH process; oracle (differential): every call's result, error, loader requests equal those of the same call made first in a fresh process, options and root unchanged, and the address-free deep fingerprint of every package-level variable (the default cache with both meta-schemas included) after every call equals the one after a single call; non-trivial = every history",
 		Assumptions: []string{"runs on the instrumented build with the default (sorted) map order so that outputs of cyclic inputs are comparable between processes", "hidden state = package-level variables of package spec (enumerated from the type-checked tree by the generated export file) plus whatever makes a later call observe something else; state inside dependencies is only seen through the observations"},
 		MinOutcomes: 1,
 	})
